@@ -44,17 +44,17 @@ AG_ALL = both(ag.rule_ag_route, ag.rule_ag_init, ag.rule_ag_stage, ag.rule_ag_co
 JN_ALL = both(ag.rule_jn_dispatch, ag.rule_jn_joiners, ag.rule_jn_build, ag.rule_pa_join)
 HD_ALL = both(hd.rule_hd_table, hd.rule_hd_startwin, hd.rule_hd_except, hd.rule_hd_update, hd.rule_hd_emit, conf.rule_hd_countpos) + one(hd.rule_hd_shapes)
 VA_ALL = both(hd.rule_va_index, hd.rule_va_enum, hd.rule_va_esc) + one(hd.rule_va_record)
-PA_ALL = both(pa.rule_pa_case, pa.rule_pa_withcase, pa.rule_pa_groups, pa.rule_pa_litorder, pa.rule_pa_cleanorder, pa.rule_pa_lit, pa.rule_pa_litflow, pa.rule_pa_subst, pa.rule_pa_litcheck, pa.rule_pa_top, pa.rule_pa_zero, pa.rule_pa_asc, pa.rule_pa_redund)
+PA_ALL = both(pa.rule_pa_case, pa.rule_pa_withcase, pa.rule_pa_groups, pa.rule_pa_litorder, pa.rule_pa_cleanorder, pa.rule_pa_lit, pa.rule_pa_litflow, pa.rule_pa_subst, pa.rule_pa_litcheck, pa.rule_pa_top, pa.rule_pa_zero, pa.rule_pa_asc, pa.rule_pa_redund, pa.rule_rx_guard)
 CS_ALL = both(cs.rule_rx_field, cs.rule_rx_newline, cs.rule_rx_ws, cs.rule_cs_trigger, cs.rule_cs_accept, cs.rule_cs_width, cs.rule_cs_extws, cs.rule_cs_dispatch, cs.rule_cs_writer, cs.rule_cs_reader)
 XP_ALL = one(xp.rule_rx_xp, xp.rule_xp_keywords, xp.rule_xp_roles, xp.rule_xp_messages, xp.rule_xp_verdicts)
 OW_ALL = both(ow.rule_ow_mut, ow.rule_ow_fresh, ow.rule_ow_selwrap, ow.rule_ow_open, ow.rule_ow_fs) + one(ow.rule_ow_sql, ow.rule_ow_conn, ow.rule_ow_pandas)
 RD_PY = one(rd.rule_rd_mustflow, rd.rule_rd_partition, rd.rule_rd_crla) + py(rd.rule_rd_decode, rd.rule_rd_eof, rd.rule_rd_bom, rd.rule_rd_comment, rd.rule_rd_rfc, rd.rule_rd_hdrflag, rd.rule_rd_replay, cs.rule_rx_newline)
 RD_JS = one(rd.rule_rd_jschunk) + js(rd.rule_rd_decode, rd.rule_rd_eof, rd.rule_rd_bom, rd.rule_rd_comment, rd.rule_rd_rfc, rd.rule_rd_hdrflag, rd.rule_rd_replay, cs.rule_rx_newline)
-GS_ALL = one(gs.rule_gs_modstate, gs.rule_gs_classattr, gs.rule_gs_defaults, gs.rule_gs_ctxescape, gs.rule_gs_exec)
+GS_ALL = one(gs.rule_gs_modstate, gs.rule_gs_classattr, gs.rule_gs_defaults, gs.rule_gs_ctxescape, gs.rule_gs_exec, gs.rule_gs_procstate)
 LK_ALL = both(lk.rule_lk_taint, lk.rule_lk_map, lk.rule_lk_anchor, lk.rule_lk_part, lk.rule_lk_cache) + one(lk.rule_rx_jsesc)
 RS_ALL = one(rs.rule_rs_close, rs.rule_rs_epipe, rs.rule_rs_decerr)
 FL_ALL = both(rs.rule_fl_flags, rs.rule_fl_fields, rs.rule_fl_none_complete, rs.rule_fl_collect)
-IF_ALL = one(ifc.rule_if_layer, ifc.rule_if_conf, ifc.rule_if_entry, ifc.rule_if_args, ifc.rule_if_joinopts, ifc.rule_if_df, ifc.rule_cl_stdout, ifc.rule_cl_exit, ifc.rule_cl_mode, ifc.rule_cl_presence, ifc.rule_cl_options) + both(ifc.rule_if_regfresh, hd.rule_hd_emit, ifc.rule_if_varmap)
+IF_ALL = one(ifc.rule_if_layer, ifc.rule_if_conf, ifc.rule_if_entry, ifc.rule_if_args, ifc.rule_if_joinopts, ifc.rule_if_df, ifc.rule_cl_stdout, ifc.rule_cl_exit, ifc.rule_cl_mode, ifc.rule_cl_presence, ifc.rule_cl_options, ifc.rule_if_eot) + both(ifc.rule_if_regfresh, hd.rule_hd_emit, ifc.rule_if_varmap)
 
 
 def only(rules, port):
@@ -106,7 +106,7 @@ PROPS = {
         'not_decided': 'effects of user expressions themselves (assumed not to mutate; cells are immutable strings).',
     },
     'C07': {
-        'rules': HD_ALL + both(conf.rule_hd_arity, conf.rule_pa_hdrcall, conf.rule_pa_conf, ow.rule_ow_mut),
+        'rules': HD_ALL + both(conf.rule_hd_arity, conf.rule_pa_hdrcall, conf.rule_pa_conf, ow.rule_ow_mut, pa.rule_rx_guard),
         'thorough_rules': both(sk.rule_sk_copy, pa.rule_pa_case) + one(xp.rule_xp_verdicts),
         'explanation': 'Decides header/record arity agreement and the naming table: in every parser configuration the arity delta of the installed writers (DISTINCT COUNT: +1) is applied to the header before set_header; set_header is called exactly once on the unwrapped sink with nothing that can raise afterwards; UPDATE hands the unchanged input header; EXCEPT header and records use select_except with the same indices; naming decision table total and ordered (unnamed -> colK by output position, star forms, column name, alias, in-range index -> source name); subscript shapes of this interpreter\'s ast are covered; the two star-rewriting patterns agree; no input header and no alias -> no header. The CSV writer emits the header at once, or - if deferred - on every normal path through finish(); the width test dominates every stream write. The naming table is decided by evaluating the per-column code (inline or in a helper) on all 257 abstract column infos.',
         'not_decided': 'that the header-side parse (python ast / JS bracket scanner) and the record-side evaluation of an arbitrary select list agree on the number of items.',
@@ -160,7 +160,7 @@ PROPS = {
         'not_decided': 'OS-level behaviour of pipes and the text wrapper\'s flushing.',
     },
     'C16': {
-        'rules': GS_ALL + py(sk.rule_sk_scope, lk.rule_lk_cache, ow.rule_ow_mut) + one(hd.rule_va_record) + py(ifc.rule_if_regfresh),
+        'rules': GS_ALL + py(sk.rule_sk_scope, lk.rule_lk_cache, ow.rule_ow_mut, ow.rule_ow_open) + one(hd.rule_va_record) + py(ifc.rule_if_regfresh),
         'thorough_rules': py(sk.rule_sk_alias),
         'explanation': 'Decides isolation as absence of shared mutable state (hence independence of every schedule and history): inventory of module-level bindings with every mutable one never the receiver of a mutating operation; `global` writes allow-listed (two debug flags); no class-level mutable attribute, no mutable default; the per-query context is created per call, only passed down or captured by per-run closures; exec receives explicit globals and a per-call locals mapping and runs the composed skeleton whose every binding is local to the wrapper function; the LIKE cache lives in the context. Module-level tables filled only as pure memos (value computed from the key alone by side-effect free operations) are accepted; module-level instances of classes whose methods change them are shared state; registries hand out fresh iterators.',
         'not_decided': 'stdlib-internal caches (re) and whatever user expressions touch; the JavaScript module-global query_context is outside this property\'s anchors and reported only as evidence.',
